@@ -15,6 +15,8 @@ import numpy as np
 
 from vmon.core import to_numpy, digest
 
+TECHNIQUE = ('runtime monitoring: validity postconditions on every public numqi.random function; pair-history monitor (call, random interleaving of other RNG consumers, same call: bit-identical) with interposition of numpy.random.default_rng / random.Random that records unseeded generators created inside an integer-seeded call and a watch on the global generator states')
+LEVEL_TEXT = ('Exploration: every public generator x every optional-argument branch x seeds, each as a pair history with other random consumers in between; plus measure_quantum_vector, CliffordCircuit(seed), optimize.minimize(seed), CHABoundaryBagging.solve(seed). Distributional correctness is not claimed.')
 RULE = ('cases = (function, argument branch, seed) for every public numqi.random function and every optional-argument branch, seeds '
         '0..N, each executed as a pair history call / random interleaving of other RNG consumers / same call; plus the other seeded APIs '
         '(measure_quantum_vector, CliffordCircuit, optimize.minimize, CHABoundaryBagging.solve). Non-trivial = the interleaving contained at '
